@@ -875,8 +875,8 @@ class IndexLevelGO(IndexLevel):
         # find fist depth that does not contain key
         depth_count = self.depth
 
-        if isinstance(key, str) or len(key) != depth_count:
-            # a string is a single label, not a sequence of labels, whatever its length
+        if isinstance(key, (str, bytes)) or len(key) != depth_count:
+            # a string (or bytes) is a single label, not a sequence of labels, whatever its length
             raise RuntimeError('appending key {} of insufficent depth {}'.format(
                         key, depth_count))
 
